@@ -315,6 +315,31 @@ func (w *Workspace) updateFileLocked(path, content string) {
 	w.reorderFilesLocked()
 }
 
+// RemoveFile takes a file out of the view that is neither open nor on disk any more. The
+// include edges that point at it stay, so that it joins again when it reappears.
+func (w *Workspace) RemoveFile(path string) {
+	w.mu.Lock()
+	defer w.mu.Unlock()
+	if path == "" || path == w.rootJournalPath || w.index == nil {
+		return
+	}
+	old := w.index.FileIndex(path)
+	if old == nil {
+		return
+	}
+	w.resolved = cloneResolved(w.resolved)
+	w.updateIncludeEdgesLocked(path, old.Includes, nil)
+	w.index.RemoveFile(path)
+	delete(w.includeGraph, path)
+	if w.resolved != nil {
+		delete(w.resolved.Files, path)
+		w.resolved.FileOrder = removeString(w.resolved.FileOrder, path)
+	}
+	w.clearCachesLocked()
+	w.refreshIncludeTreeLocked()
+	w.reorderFilesLocked()
+}
+
 // adoptByGlobLocked expands the glob includes of the member files again and enters the
 // new edges; it reports whether path is included by a member now.
 func (w *Workspace) adoptByGlobLocked(path string) bool {
